@@ -21,3 +21,8 @@ def pos(r=3, timeout=300, tier="both"):
                 stubs=["input stream: position/length model (64-bit position, all-or-nothing reads and skips)", "lha_file_header_read: 30-byte header with arbitrary packed size, records where it parses",
                        "calloc: typed static arena"],
                 bounds="two members, packed sizes over the full 32-bit range, stream length arbitrary (64 bit), %d reads of arbitrary sizes" % r)
+
+
+THREADS = dict(name="threads.decode2", src="rsm/threads.c", unwind=4, flags=["--arrays-uf-always"], units=["lib/lha_reader.c:do_decode,lha_reader_read"], timeout=600, mem_gb=6, replay="concrete",
+               bounds="two threads, one reader each, one member of one byte each; all interleavings (CBMC's concurrency encoding)",
+               stubs=["decoder: one identifying byte per reader, then end", "fwrite: records the first byte per output handle"])
